@@ -108,7 +108,7 @@ theorem refused_before_resolvers (fuel : Nat) (S : Schema) (o : Oracle) (env : E
     simp [this]
 
 /-- non-vacuity -/
-def S0 : Schema := ⟨[.scalar "Int", .input "In" [⟨"x", .nonNull (.named "Int"), none⟩, ⟨"y", .named "Int", some (.int "7")⟩]], "Query", none, none⟩
+def S0 : Schema := { types := [.scalar "Int", .input "In" [⟨"x", .nonNull (.named "Int"), none⟩, ⟨"y", .named "Int", some (.int "7")⟩]], queryType := "Query", mutationType := none, subscriptionType := none }
 def o0 : Oracle := ⟨fun _ => none⟩
 example : coerceVariable 9 S0 o0 ⟨"v", .list (.named "In"), none, ⟨1, 1⟩⟩ [("v", .dict [("x", .int 1)])]
     = .value (.list [.dict [("x", .int 1), ("y", .int 7)]]) := by rfl
